@@ -170,7 +170,8 @@ Proof.
     unfold timer_new in H. cbn [fst snd] in H. inversion H; subst st1 pushed; clear H. in_cases Hj; cbn in Hr; rewrite ?andb_false_r, ?andb_true_r in Hr; try discriminate;
       apply Z.eqb_eq in Hr; apply Hc; exact Hr.
   - inversion H; subst st1 pushed. contradiction.
-  - inversion H; subst st1 pushed. contradiction.
+  - inversion H; subst st1 pushed. destruct Hj as [<-|[]]. discriminate.
+  - match type of H with (if ?b then _ else _) = _ => destruct b end; inversion H; subst st1 pushed; contradiction.
   - destruct ((c_state (get_conn st k) =? c_connectionClosed) || negb room); inversion H; subst st1 pushed; contradiction.
   - destruct (c_state (get_conn st k) =? c_connectionActive); inversion H; subst st1 pushed; contradiction.
   - (* INcGet *)
@@ -264,6 +265,7 @@ Proof.
   - unfold timer_new in H. cbn [fst snd] in H. inversion H. split; reflexivity.
   - inversion H. split; reflexivity.
   - inversion H. split; reflexivity.
+  - match type of H with (if ?b then _ else _) = _ => destruct b end; inversion H; split; reflexivity.
   - destruct ((c_state (get_conn st k) =? c_connectionClosed) || negb room); inversion H; split; reflexivity.
   - destruct (c_state (get_conn st k) =? c_connectionActive); inversion H; split; reflexivity.
   - destruct (frameTypeFor (f_mt f)); [|inversion H; split; reflexivity].
@@ -371,8 +373,8 @@ Proof.
     inversion H. subst. apply (SInv_new_thread (set_timers st _)); [exact HS|]. intros c j [<-|[]]. reflexivity.
   - unfold step in H. destruct (negb (panicked st =? 0)); [discriminate|].
     destruct (mem_key t (gcs st)); [|discriminate]. inversion H. subst.
-    destruct (items_delete (set_gcs st (remove_one t (gcs st))) t) as [st' g] eqn:E. cbn [fst].
-    apply items_delete_spec in E. destruct E as (_&_&A&B&_). destruct HS as [Hs HS0]. split.
+    destruct (items_delete_tomb_spec (set_gcs st (remove_one t (gcs st))) t) as (_&_&A&B&_).
+    destruct HS as [Hs HS0]. split.
     + rewrite B. exact Hs.
     + intros c Hge. rewrite B in Hge. rewrite A. apply (HS0 c Hge).
   - unfold step in H. destruct (negb (panicked st =? 0)); [discriminate|].
@@ -451,4 +453,4 @@ Definition wit_res_last : frame := {| f_mt := c_messageTypeCallResContinue; f_id
 Definition calm_example : list label :=
   [LArrive 0 wit_req wit_env] ++ repeat (LStep (TR 0) true) 10 ++
   [LArrive 1 wit_res_more wit_env] ++ repeat (LStep (TR 1) true) 8 ++
-  [LArrive 1 wit_res_last wit_env] ++ repeat (LStep (TR 1) true) 11.
+  [LArrive 1 wit_res_last wit_env] ++ repeat (LStep (TR 1) true) 13.
